@@ -99,7 +99,7 @@ func checkC09(c *Ctx) (string, []string) {
 		"ret.Minbalance": {K + "CalcThresholdBalance(" + K + "CalcKeys(p0), " + K + "CalcOctets(p0), p0.ServiceInfo.DepositOffset)"},
 	})
 
-	c.Rule("C09.counts-track-mutations", "every insert/delete on an account's StorageDict or LookupDict in package PVM (other than the raw-pool migration idiom) is accompanied, on every path through it, by stores to both ServiceInfo.Items and ServiceInfo.Bytes of the same function (or is the construction of a brand-new account whose counts come from GetServiceAccountDerivatives)", 5)
+	c.Rule("C09.counts-track-mutations", "every insert/delete on an account's StorageDict or LookupDict in package PVM (other than the raw-pool migration idiom) is accompanied, on every path through it, by stores to both ServiceInfo.Items and ServiceInfo.Bytes of the same function (or is the construction of a brand-new account whose counts come from GetServiceAccountDerivatives, or writes a new value under a lookup key that is known to be present, which changes no count)", 5)
 	isCountStore := func(field string) func(ssa.Instruction) bool {
 		return func(in ssa.Instruction) bool {
 			st, ok := in.(*ssa.Store)
@@ -145,6 +145,13 @@ func checkC09(c *Ctx) (string, []string) {
 				_, before := findPath(pathQuery{fn: f, target: func(x ssa.Instruction) bool { return x == in }, blocker: isS})
 				if after && before {
 					okBoth = false
+				}
+			}
+			if !okBoth && kind == "insert" && strings.HasSuffix(ms, ".LookupDict") {
+				// the lookup dictionary's footprint depends only on its key set: a new value under a key that is known to be there changes no count
+				if mu := in.(*ssa.MapUpdate); lookupKeyPresent(c, f, in, mu.Map, mu.Key, 0) {
+					c.OK("C09.counts-track-mutations", key, in.Pos(), "new value under a key that is known to be present (the lookup footprint depends only on the key set)")
+					return
 				}
 			}
 			c.Check(okBoth, "C09.counts-track-mutations", key, in.Pos(), "Items and Bytes are both updated on every path through this mutation", "a path changes the dictionary without updating the recorded item/octet counts")
